@@ -319,7 +319,24 @@ def _loc_bounds(x):
     return d[1] if len(d) > 2 else d[0], d[-2] if len(d) > 2 else d[-1]
 
 
+def _sorted_dups(x, how):
+    """a frame whose column `s` is sorted with duplicate keys that straddle partition borders ([1,2,2][2,3,3][3,5,5]),
+    made the index through the paths that derive divisions from the data"""
+    pdf = pd.DataFrame({"s": np.array([1, 2, 2, 2, 3, 3, 3, 5, 5], dtype="int64"), "v": np.arange(9, dtype="int64")})
+    df = e2e.frame_from_cuts(pdf, [0, 3, 6, 9], known_divisions=False)
+    if how == "sorted":
+        return df.set_index("s", sorted=True)
+    if how == "auto":
+        return df.set_index("s", shuffle_method="tasks")
+    if how == "sorted_loc":
+        return df.set_index("s", sorted=True).loc[2:3]
+    raise KeyError(how)
+
+
 DED_OPS = {
+    "set_index_sorted_dups": lambda x, k: _sorted_dups(x, "sorted"),
+    "set_index_auto_dups": lambda x, k: _sorted_dups(x, "auto"),
+    "set_index_sorted_dups_loc": lambda x, k: _sorted_dups(x, "sorted_loc"),
     "id": lambda x, k: x,
     "add1": lambda x, k: x[["a", "v"]] + 1,
     "filter": lambda x, k: x[x.a > 6],
@@ -640,6 +657,11 @@ MUST_RUN = [
     {"kind": "rowcount", "source": "from_pandas", "chain": "col_a", "P": [2, 0]},               # D62
     {"kind": "rowcount", "source": "read_parquet", "chain": "add1", "P": [2, 0]},               # D63
     {"kind": "rowcount", "source": "read_parquet_arrow", "chain": "col_a", "P": [0, 0]},        # D63
+    {"kind": "rowcount", "source": "from_pandas", "chain": "shuffle_tasks_lowered", "P": [1, 2]},   # D108: len of selected partitions
+    {"kind": "rowcount", "source": "from_pandas", "chain": "shuffle_tasks_lowered", "P": [0]},
+    {"kind": "dedicated", "index": "int", "npartitions": 2, "op": "set_index_sorted_dups"},     # C06-m3: equal keys across a border
+    {"kind": "dedicated", "index": "int", "npartitions": 2, "op": "set_index_auto_dups"},
+    {"kind": "dedicated", "index": "int", "npartitions": 2, "op": "set_index_sorted_dups_loc"},
     # a selection that cannot reach the reader (cumulative / overlap operation in between) over a multi-file read that
     # the tune stage would fuse into fewer partitions (D86)
     {"kind": "source", "source": "read_parquet_div", "chain": "cumsum", "P": [3, 1]},
